@@ -12,6 +12,8 @@ import Peppi.Lemmas.C10A
 import Peppi.Lemmas.ArrowStream
 import Peppi.Lemmas.PeppiRead
 import Peppi.Lemmas.Example
+import Peppi.SlppCut
+import Peppi.TarCut
 set_option linter.unusedVariables false
 namespace Peppi.Props.C07
 
@@ -138,5 +140,43 @@ theorem example_A_roundtrip :
     ∀ n, n < (r.encodeAny s.version (portOccupancy s) none).length →
       ∃ e, readSlp T0 {} ((r.encodeAny s.version (portOccupancy s) none).take n) = .err e :=
   _root_.Peppi.example_A_roundtrip 
+
+/- from `Peppi.SlppCut` -/
+theorem slppReadL_cut {χ : Type} (C : CodecT χ) (T : TextOracle) (g : PGame χ) (startBytes : Bytes) (endBytes : Option Bytes)
+    (hstart : gameStart T startBytes = .ok g.start)
+    (hend : endBytes.map gameEnd = g.fend.map Res.ok)
+    (hgecko : ∀ c, g.gecko = some c → c.2 < 2 ^ 32)
+    (hs : SizesOK C.toCodec g startBytes endBytes) (skip : Bool) (n : Nat) :
+    (∃ m, slppReadL C.toCodec T skip ((slppWrite C.toCodec g startBytes endBytes).take n) = .err m) ∨
+    slppReadL C.toCodec T skip ((slppWrite C.toCodec g startBytes endBytes).take n) = .ok (if skip then { g with frames := none } else g) :=
+  _root_.Peppi.slppReadL_cut C T g startBytes endBytes hstart hend hgecko hs skip n
+
+/- from `Peppi.SlppCut` -/
+theorem slppReadL_written {χ : Type} (C : CodecT χ) (T : TextOracle) (g : PGame χ) (startBytes : Bytes) (endBytes : Option Bytes)
+    (hstart : gameStart T startBytes = .ok g.start)
+    (hend : endBytes.map gameEnd = g.fend.map Res.ok)
+    (hgecko : ∀ c, g.gecko = some c → c.2 < 2 ^ 32)
+    (hs : SizesOK C.toCodec g startBytes endBytes) (skip : Bool) :
+    slppReadL C.toCodec T skip (slppWrite C.toCodec g startBytes endBytes) = .ok (if skip then { g with frames := none } else g) :=
+  _root_.Peppi.slppReadL_written C T g startBytes endBytes hstart hend hgecko hs skip
+
+/- from `Peppi.SlppCut` -/
+theorem peppiLoop_cut {χ : Type} (C : Codec χ) (T : TextOracle) (skip : Bool) :
+    ∀ (es : List (Bytes × Bytes)), (∀ e ∈ es, PrefOK C T skip e) → ∀ (n : Nat) (acc : PAcc χ),
+      (∃ m, peppiLoop T skip (cutItems es n).2 acc ((cutItems es n).1.map (classifyT C)) = .err m) ∨
+      peppiLoop T skip (cutItems es n).2 acc ((cutItems es n).1.map (classifyT C)) = peppiLoop T skip true acc (es.map (classify C)) :=
+  _root_.Peppi.peppiLoop_cut C T skip
+
+/- from `Peppi.TarCut` -/
+theorem tarScan_cut (es : List (Bytes × Bytes)) (hes : ∀ e ∈ es, EntryOK e) (fuel : Nat) (hf : es.length < fuel) (n : Nat) :
+    tarScan fuel ((tarArchive es).take n) = cutItems es n :=
+  _root_.Peppi.tarScan_cut es hes fuel hf n
+
+/- from `Peppi.SlppCut` -/
+theorem exPGame_cut (skip : Bool) (n : Nat) :
+    (∃ m, slppReadL toyCodecT.toCodec T0 skip ((slppWrite toyCodecT.toCodec exPGame (exBlock 3 17 760) none).take n) = .err m) ∨
+    slppReadL toyCodecT.toCodec T0 skip ((slppWrite toyCodecT.toCodec exPGame (exBlock 3 17 760) none).take n) =
+      .ok (if skip then { exPGame with frames := none } else exPGame) :=
+  _root_.Peppi.exPGame_cut skip n
 
 end Peppi.Props.C07
